@@ -55,6 +55,17 @@ def install_io(it: Interp, rec):
     it.hooks["open"] = lambda path, mode="r", **k: FileHandle(path, mode)
     it.hooks["pickle.dump"] = lambda obj, fh, *a, **k: rec["pickle"].append((obj, fh))
 
+    def pd_to_pickle(obj, path, compression="infer", **k):
+        # pandas.to_pickle: a plain pickle stream - unless the path ends in .gz / .bz2 / .zip / .xz / .zst / .tar (compression="infer"), in
+        # which case the file is a compressed archive that pickle.load cannot read
+        fh = FileHandle(str(path), "wb")
+        if compression == "infer" and str(path).lower().endswith((".gz", ".bz2", ".zip", ".xz", ".zst", ".tar", ".tar.gz", ".tar.xz", ".tar.bz2")):
+            fh.mode = "wb+compressed"
+        elif compression not in ("infer", None):
+            fh.mode = "wb+compressed"
+        rec["pickle"].append((obj, fh))
+    it.hooks["pandas.to_pickle"] = pd_to_pickle
+
 
 GRAPHS = [
     (["sysenv", "use", "waste"], [("sysenv", "use", "ta"), ("use", "waste", "at"), ("use", "waste", "t"), ("waste", "sysenv", "b")], [("waste", "ta"), (None, "t")]),
@@ -180,22 +191,24 @@ def valid_name(it, prog, s):
 def file_cases(prog, rep, fails):
     for gi, graph in enumerate(GRAPHS):
         for keys_differ in ((False, True, "shared", "suffix") if graph[2] else (False, True)):
-            # pickle
-            w = World(prog)
-            it = w.it
-            rec = {"csv": [], "dirs": set(), "pickle": []}
-            install_io(it, rec)
-            mfa = build(w, graph, keys_differ)
-            snaps, keys = snapshot(w, mfa)
-            inp = {"graph": gi, "keys_differ_from_names": keys_differ}
-            kind, r = run_guarded(lambda: it.call_fn(prog.func(MOD, "export_mfa_to_pickle"), [mfa, "out.pickle"], {}))
-            ref = it.call_fn(prog.func(MOD, "convert_to_dict"), [mfa], {})
-            rep.evaluations += 1
-            ok = kind == "ok" and len(rec["pickle"]) == 1 and isinstance(rec["pickle"][0][1], FileHandle) and rec["pickle"][0][1].path == "out.pickle" \
-                and "w" in rec["pickle"][0][1].mode and "b" in rec["pickle"][0][1].mode and dict_equal(rec["pickle"][0][0], ref) and not w.changed(snaps)
-            rep.oblige("C19.pickle", ok, where="export_mfa_to_pickle", what=str(inp))
-            if not ok:
-                note(fails, "C19.pickle", "export_mfa_to_pickle", inp, f"the pickle does not hold exactly convert_to_dict(mfa) written to the given path ({kind})")
+            # pickle (the file is a plain pickle stream whatever the chosen file name looks like)
+            for out_path in (("out.pickle", "results/run 1.pkl.gz") if keys_differ is False else ("out.pickle",)):
+                w = World(prog)
+                it = w.it
+                rec = {"csv": [], "dirs": set(), "pickle": []}
+                install_io(it, rec)
+                mfa = build(w, graph, keys_differ)
+                snaps, keys = snapshot(w, mfa)
+                inp = {"graph": gi, "keys_differ_from_names": keys_differ, "path": out_path}
+                kind, r = run_guarded(lambda: it.call_fn(prog.func(MOD, "export_mfa_to_pickle"), [mfa, out_path], {}))
+                ref = it.call_fn(prog.func(MOD, "convert_to_dict"), [mfa], {})
+                rep.evaluations += 1
+                ok = kind == "ok" and len(rec["pickle"]) == 1 and isinstance(rec["pickle"][0][1], FileHandle) and rec["pickle"][0][1].path == out_path \
+                    and "w" in rec["pickle"][0][1].mode and "b" in rec["pickle"][0][1].mode and "compressed" not in rec["pickle"][0][1].mode \
+                    and dict_equal(rec["pickle"][0][0], ref) and not w.changed(snaps)
+                rep.oblige("C19.pickle", ok, where="export_mfa_to_pickle", what=str(inp))
+                if not ok:
+                    note(fails, "C19.pickle", "export_mfa_to_pickle", inp, f"the pickle does not hold exactly convert_to_dict(mfa) as a plain pickle stream written to the given path ({kind})")
             # flows csv
             w = World(prog)
             it = w.it
